@@ -69,4 +69,27 @@ def catalog():
     s.array("els", 1, Op("*", "n", 2), ("sub", "El"), 2, auto=True)
     s.array("fixed", Op("+", Op("*", "n", 2), 1), 4, ("Int", "BE"), 2)
     ps.append(p)
+
+    # P6: simple transforms (y+c, c+y, y-c, c-y), [requires] on stored and on virtual fields, wide-ish bit fields
+    p = Program("Xform")
+    s = p.struct("Xf")
+    s.scalar("raw", 0, 1, st="Int")
+    s.scalar("u", 1, 1, requires=Op(">=", THIS, 2))
+    s.transform("y1", "y+c", "raw", 100)
+    s.transform("y2", "y+c", "u", 5, flip=True)
+    s.transform("y3", "y-c", "raw", 3)
+    s.transform("y4", "c-y", "u", 40, requires=Op(">", THIS, 0))
+    s.anon_bits(2, 2, lambda b: (b.scalar("n0", 0, 4), b.scalar("n1", 4, 8, st="Int"), b.scalar("n2", 12, 4, st="Bcd")), order="BE")
+    s.transform("z", "y+c", "n1", 1)
+    s.scalar("tail", 4, 3, order="BE")
+    ps.append(p)
+
+    # P7: gaps (bytes no field covers), overlapping fields (union), conditional tail, fixed padding
+    p = Program("Gaps")
+    s = p.struct("Gp")
+    s.scalar("a", 0, 1)
+    s.scalar("b", 2, 1)                      # byte 1 is uncovered
+    s.scalar("ab", 0, 2, order="LE")         # overlaps a
+    s.scalar("opt", 4, 2, cond=Op(">", "a", 1), order="BE")   # byte 3 uncovered
+    ps.append(p)
     return ps
